@@ -708,7 +708,8 @@ func (check typecheck) conversion(n *node, typ *itype) error {
 			ok = true
 		case isInt(n.typ.TypeOf()) && isString(t):
 			codepoint := int64(-1)
-			if i, ok := constant.Int64Val(c); ok {
+			// A value outside the range of runes is converted to "\uFFFD", not truncated.
+			if i, ok := constant.Int64Val(c); ok && i == int64(rune(i)) {
 				codepoint = i
 			}
 			n.rval = reflect.ValueOf(constant.MakeString(string(rune(codepoint))))
